@@ -681,6 +681,10 @@ qb_ipcs_flowcontrol_set(struct qb_ipcs_connection *c, int32_t fc_enable)
 	if (c == NULL) {
 		return;
 	}
+	if (c->state == QB_IPCS_CONNECTION_INACTIVE) {
+		/* not set up yet or torn down already: no channel to mark */
+		return;
+	}
 	if (c->fc_enabled != fc_enable) {
 		c->service->funcs.fc_set(&c->request, fc_enable);
 		c->fc_enabled = fc_enable;
